@@ -37,7 +37,7 @@
 -/
 namespace Kopf.C07
 
-abbrev Tick := Int
+-- times are `Int` ticks (plain `Int`, so that `omega` sees them)
 
 /-- A resourceVersion as the worker compares it (by equality only). `never` marks the suffix
     `~which~never~arrives`; versions carried by watch events never have it. -/
@@ -49,7 +49,7 @@ structure Ver where
 /-- The worker's two locals. -/
 structure WState where
   expected : Option Ver
-  deadline : Option Tick
+  deadline : Option Int
   deriving DecidableEq, Repr
 
 def WState.init : WState := { expected := none, deadline := none }
@@ -64,8 +64,9 @@ def arrive (s : WState) (v : Option Ver) : WState :=
 /-- One worker iteration: what was dequeued, what the environment and the handlers did. -/
 structure Iter where
   ver : Option Ver        -- `get_version(raw_event)`
-  now : Tick              -- `loop.time()` when the event was dequeued = when the processor starts
-  pressure : Bool         -- more events were queued at the dequeue (`pressure` stays set)
+  now : Int              -- `loop.time()` when the event was dequeued = when the processor starts
+  dur : Nat               -- ticks the raw-event handlers take (the barrier is reached at `now + dur`)
+  pressure : Bool         -- more events are queued when the barrier is reached (`pressure` is set)
   wake : Option Nat       -- a further event arrives this many ticks after the barrier sleep began
   lag : Nat               -- lateness of a timed-out sleep (0 under virtual time)
   gone : Bool             -- the cause is GONE (a DELETED event)
@@ -73,17 +74,17 @@ structure Iter where
   patchInit : Bool        -- `not patch` at the entry (`patch_initially_empty`)
   patchMid : Bool         -- `not patch` at the barrier (raw-event handlers may have filled it)
   patched : Option Ver    -- version returned by the processor (None: no PATCH, or it hit a 404)
-  tp : Tick               -- when the server applied that PATCH (meaningful when `patched` is some)
-  tret : Tick             -- `loop.time()` when the processor returned
+  tp : Int               -- when the server applied that PATCH (meaningful when `patched` is some)
+  tret : Int             -- `loop.time()` when the processor returned
   deriving DecidableEq, Repr
 
 structure Slept where
-  tEnd : Tick
+  tEnd : Int
   timedOut : Bool         -- `unslept is None`
   deriving DecidableEq, Repr
 
 /-- `aiotime.sleep(d - now, wakeup=pressure)` started at `now`. -/
-def sleepUntil (d now : Tick) (pressure : Bool) (wake : Option Nat) (lag : Nat) : Slept :=
+def sleepUntil (d now : Int) (pressure : Bool) (wake : Option Nat) (lag : Nat) : Slept :=
   if d - now ≤ 0 then ⟨now, true⟩                   -- `minimal_delay <= 0`: no sleep, None
   else if pressure then ⟨now, false⟩                -- the event is set already: woken at once
   else match wake with
@@ -96,29 +97,30 @@ inductive Stage where
 
 /-- What the processor decided in one iteration. -/
 structure Outcome where
-  given : Option Tick           -- `consistency_time` as passed in
-  low : List (Stage × Tick)     -- the stages before the barrier, in code order, and when they start
+  given : Option Int           -- `consistency_time` as passed in
+  low : List (Stage × Int)     -- the stages before the barrier, in code order, and when they start
   slept : Option Slept          -- the barrier sleep, if it was entered
   achieved : Bool               -- final `consistency_is_achieved`
   held : Bool                   -- the early return was taken
-  entered : Option Tick         -- `process_changing_cause` was entered (at this time)
-  handlers : Option Tick        -- … with a cause whose handlers can run (GONE has none: C05)
+  entered : Option Int         -- `process_changing_cause` was entered (at this time)
+  handlers : Option Int        -- … with a cause whose handlers can run (GONE has none: C05)
   deriving DecidableEq, Repr
 
 /-- The processor, as far as the barrier is concerned. -/
-def process (deadline : Option Tick) (it : Iter) : Outcome :=
-  let low := [(Stage.indexing, it.now), (Stage.watching, it.now), (Stage.spawning, it.now)]
+def process (deadline : Option Int) (it : Iter) : Outcome :=
+  let t0 : Int := it.now + it.dur
+  let low := [(Stage.indexing, it.now), (Stage.watching, it.now), (Stage.spawning, t0)]
   let pre : Bool := deadline.isNone || it.gone
   let slept : Option Slept :=
     match deadline with
     | some d =>
       -- `required and not achieved and not patch and consistency_time` (0.0 is falsy)
       if it.required && !pre && it.patchMid && decide (d ≠ 0)
-      then some (sleepUntil d it.now it.pressure it.wake it.lag) else none
+      then some (sleepUntil d t0 it.pressure it.wake it.lag) else none
     | none => none
   let ach1 : Bool := match slept with | some s => s.timedOut | none => pre
   let achieved := ach1 && it.patchInit
-  let tB : Tick := match slept with | some s => s.tEnd | none => it.now
+  let tB : Int := match slept with | some s => s.tEnd | none => t0
   let ran := it.required && achieved
   { given := deadline, low := low, slept := slept, achieved := achieved,
     held := it.required && !achieved,
@@ -126,25 +128,25 @@ def process (deadline : Option Tick) (it : Iter) : Outcome :=
     handlers := if ran && !it.gone then some tB else none }
 
 /-- `if newer_patch_version is not None and settings.persistence.consistency_timeout: …` -/
-def feedback (T : Tick) (s : WState) (it : Iter) : WState :=
+def feedback (T : Int) (s : WState) (it : Iter) : WState :=
   match it.patched with
   | some p => if T ≠ 0 then { expected := some p, deadline := some (it.tret + T) } else s
   | none => s
 
 /-- One full worker iteration: reset-on-arrival, the processor, the feedback. -/
-def stepEvent (T : Tick) (s : WState) (it : Iter) : WState × Outcome :=
+def stepEvent (T : Int) (s : WState) (it : Iter) : WState × Outcome :=
   let s1 := arrive s it.ver
   (feedback T s1 it, process s1.deadline it)
 
 /-- The idle wait of the worker: `max(idle_timeout, consistency_time - loop.time() or 0)`. -/
-def idleTimeout (idle : Tick) (deadline : Option Tick) (now : Tick) : Tick :=
+def idleTimeout (idle : Int) (deadline : Option Int) (now : Int) : Int :=
   max idle (match deadline with | some d => d - now | none => 0)
 
 /-- A life of the per-object stream: iterations, and idle exits of the worker followed by a fresh
     worker (fresh locals) when the next event comes. -/
 inductive Step where
   | event (it : Iter)
-  | retire (t : Tick)     -- the idle wait timed out at `t` with an empty backlog
+  | retire (t : Int)     -- the idle wait timed out at `t` with an empty backlog
   deriving DecidableEq, Repr
 
 def Step.ver : Step → Option Ver
@@ -158,33 +160,33 @@ def Step.patched : Step → Option Ver
 /-- Worker state plus the clock (when the last step ended). -/
 structure Cfg where
   s : WState
-  clock : Tick
+  clock : Int
   deriving DecidableEq, Repr
 
 def Cfg.init : Cfg := { s := WState.init, clock := 0 }
 
-def next (T : Tick) (c : Cfg) : Step → Cfg
+def next (T : Int) (c : Cfg) : Step → Cfg
   | .event it => { s := (stepEvent T c.s it).1, clock := it.tret }
   | .retire t => { s := WState.init, clock := t }
 
-def exec (T : Tick) (c : Cfg) (l : List Step) : Cfg := l.foldl (next T) c
+def exec (T : Int) (c : Cfg) (l : List Step) : Cfg := l.foldl (next T) c
 
 /-- The processor's decision for iteration `it` started from configuration `c`. -/
-def outcomeAt (T : Tick) (c : Cfg) (it : Iter) : Outcome := (stepEvent T c.s it).2
+def outcomeAt (T : Int) (c : Cfg) (it : Iter) : Outcome := (stepEvent T c.s it).2
 
 /-- All outcomes of a run, in order (retirements yield none). -/
-def outcomes (T : Tick) : Cfg → List Step → List Outcome
+def outcomes (T : Int) : Cfg → List Step → List Outcome
   | _, [] => []
   | c, .event it :: rest => outcomeAt T c it :: outcomes T (next T c (.event it)) rest
   | c, .retire t :: rest => outcomes T (next T c (.retire t)) rest
 
 /-- Time sanity of one step: the clock does not run backwards, a PATCH is applied before the
     processor returns, and the worker retires only when its idle wait has timed out. -/
-def okStep (idle : Tick) (c : Cfg) : Step → Bool
+def okStep (idle : Int) (c : Cfg) : Step → Bool
   | .event it => decide (c.clock ≤ it.now) && decide (it.now ≤ it.tret) && decide (it.tp ≤ it.tret)
   | .retire t => decide (c.clock ≤ t) && decide (c.clock + idleTimeout idle c.s.deadline c.clock ≤ t)
 
-def wf (T idle : Tick) : Cfg → List Step → Bool
+def wf (T idle : Int) : Cfg → List Step → Bool
   | _, [] => true
   | c, st :: rest => okStep idle c st && wf T idle (next T c st) rest
 
